@@ -7,6 +7,7 @@ case = {'engine': 'seq', 'seed': int, 'variant': str, 'knobs': {...},
 Violations carry the property they belong to (C09 C10 C11 C12 C13 C14 C15 C16 C23);
 each check driver reports only its own.
 """
+import json
 import os
 import traceback
 
@@ -99,7 +100,7 @@ class SeqRun(seq_hooks.HooksMixin, object):
         db = self.db = orm.Database()
         ns = {'db': db, 'Required': orm.Required, 'Optional': orm.Optional, 'Set': orm.Set,
               'PrimaryKey': orm.PrimaryKey, 'composite_key': orm.composite_key, 'int': int, 'str': str,
-              'float': float, 'HOOKLOG': self.log}
+              'float': float, 'Json': orm.Json, 'HOOKLOG': self.log}
         self.hooks_setup(ns)
         src_knobs = dict(self.knobs)
         src_knobs['hooks'] = self.hook_sources()
@@ -195,7 +196,7 @@ class SeqRun(seq_hooks.HooksMixin, object):
                     continue
                 if not pa.columns:
                     continue
-                layout.append((a.name, len(pa.columns), a.is_rel))
+                layout.append((a.name, len(pa.columns), 'json' if a.is_json else a.is_rel))
                 cols.extend(pa.columns)
             pkcols = list(P._pk_columns_)
             out['ent'][e.name] = ('SELECT %s FROM %s' % (', '.join(q(c) for c in pkcols + cols), q(P._table_)),
@@ -224,7 +225,9 @@ class SeqRun(seq_hooks.HooksMixin, object):
                     for (an, n, is_rel) in layout:
                         v = tuple(r[i:i + n])
                         i += n
-                        if is_rel:
+                        if is_rel == 'json':
+                            row[an] = None if v[0] is None else json.loads(v[0])
+                        elif is_rel:
                             row[an] = None if all(x is None for x in v) else v
                         else:
                             row[an] = v[0]
